@@ -31,6 +31,8 @@ type config struct {
 	out      string
 	progress *monitor.Progress
 	replay   string
+	onlyPkg  string // replay: restrict targets to this package ...
+	onlyMsg  string // ... and message type
 	pkgs     []*bridge.Pkg
 }
 
@@ -89,9 +91,7 @@ func Main() {
 		}
 	}
 	start := time.Now()
-	if cfg.replay != "" {
-		runReplay(cfg, res)
-	} else {
+	dispatch := func() {
 		switch cfg.prop {
 		case "C04", "C05":
 			runC0405(cfg, res)
@@ -117,6 +117,11 @@ func Main() {
 			fmt.Fprintln(os.Stderr, "unknown property", cfg.prop)
 			os.Exit(3)
 		}
+	}
+	if cfg.replay != "" {
+		runReplay(cfg, res, dispatch)
+	} else {
+		dispatch()
 	}
 	res.Extra("wall_ms", time.Since(start).Milliseconds())
 	res.Extra("packages_linked", int64(len(cfg.pkgs)))
@@ -150,6 +155,9 @@ func (c *config) targets(fast bool) []target {
 				if _, ok := p.New(md.FullName()).(fastMsg); !ok {
 					continue // no generated methods for this type (C16 reports why)
 				}
+			}
+			if c.onlyPkg != "" && p.GoPkg != c.onlyPkg || c.onlyMsg != "" && string(md.FullName()) != c.onlyMsg {
+				continue
 			}
 			if c.mine(i) {
 				out = append(out, target{pkg: p, md: md, idx: i})
@@ -216,7 +224,7 @@ func cloneDyn(d *dynamicpb.Message) *dynamicpb.Message {
 
 // sigFlav is the flavour component of violation signatures: the runtime flavour, plus "+ext" when the
 // message type has proto2 extensions declared for it in its unit (the generated extension snippets are a
-// separate, known-defective code path; see known_findings.jsonl).
+// separate code path that was defective for most kinds until the fix recorded in known_findings.jsonl).
 func sigFlav(t target) string {
 	if len(t.pkg.Exts[t.md.FullName()]) > 0 {
 		return t.pkg.Flavour + "+ext"
